@@ -4,6 +4,7 @@ package c07
 import (
 	"bufio"
 	"bytes"
+	"context"
 	"errors"
 	"fmt"
 	"io"
@@ -162,6 +163,7 @@ type attemptScript struct {
 	writes   [][]byte
 	explicit bool // send a true Content-Length
 	copyMode bool // the body is streamed with io.Copy from a reader that is nothing but a Reader
+	hints    bool // 103 Early Hints are sent before the status of this attempt
 }
 
 // plainReader hides everything but Read (no WriteTo, no Len).
@@ -185,6 +187,7 @@ func genScript(t *rapid.T) []attemptScript {
 		}
 		s.explicit = rapid.IntRange(0, 2).Draw(t, "explicitCL") == 0
 		s.copyMode = rapid.IntRange(0, 3).Draw(t, "ioCopy") == 0
+		s.hints = rapid.IntRange(0, 4).Draw(t, "earlyHints") == 0
 		out = append(out, s)
 	}
 	return out
@@ -232,6 +235,9 @@ func scriptHandler(script []attemptScript, calls *int) http.Handler {
 		w.Header().Set("X-Attempt", strconv.Itoa(i+1))
 		if s.explicit {
 			w.Header().Set("Content-Length", strconv.Itoa(len(s.body())))
+		}
+		if s.hints { // what a reverse proxy does when its backend sends Early Hints
+			w.WriteHeader(http.StatusEarlyHints)
 		}
 		if s.status != 0 {
 			w.WriteHeader(s.status)
@@ -358,7 +364,7 @@ func (c *caseSpec) describe() string {
 	}
 	var ss []string
 	for _, s := range c.script {
-		ss = append(ss, fmt.Sprintf("{status:%d headers:%v writes:%d bytes in %d writes explicitCL:%v}", s.status, s.headers, len(s.body()), len(s.writes), s.explicit))
+		ss = append(ss, fmt.Sprintf("{status:%d headers:%v writes:%d bytes in %d writes explicitCL:%v ioCopy:%v earlyHints:%v}", s.status, s.headers, len(s.body()), len(s.writes), s.explicit, s.copyMode, s.hints))
 	}
 	return fmt.Sprintf("method=%s retry=%q memResponse=%d maxResponse=%d after %d over-limit exchanges script=[%s]", c.method, src, c.memThr, c.maxResp, c.preludes, strings.Join(ss, " "))
 }
@@ -407,6 +413,13 @@ func TestC07_InProcess(t *testing.T) {
 		}
 		rec := sim.NewRecorder()
 		req := httptest.NewRequest(c.method, "http://front/x", nil)
+		if rapid.IntRange(0, 7).Draw(t, "requestContextDone") == 0 {
+			// an outer timeout has fired / the context was cancelled: the retry expression speaks
+			// about attempts, status and method only
+			ctx, cancel := context.WithCancel(req.Context())
+			cancel()
+			req = req.WithContext(ctx)
+		}
 		var client http.ResponseWriter = rec
 		gone := -1
 		if rapid.IntRange(0, 5).Draw(t, "clientGoesAway") == 0 {
@@ -429,8 +442,14 @@ func TestC07_InProcess(t *testing.T) {
 			t.Fatalf("handler invoked %d times, the retry expression prescribes %d\ncase: %s", calls, want, c.describe())
 		}
 		final := c.script[(want-1)%len(c.script)]
-		if len(rec.HeaderCalls) > 1 {
-			t.Fatalf("client saw %d WriteHeader calls %v, want exactly one response\ncase: %s", len(rec.HeaderCalls), rec.HeaderCalls, c.describe())
+		finalCalls := 0
+		for _, code := range rec.HeaderCalls {
+			if code < 100 || code > 199 {
+				finalCalls++
+			}
+		}
+		if finalCalls > 1 {
+			t.Fatalf("client saw the WriteHeader calls %v, want exactly one response\ncase: %s", rec.HeaderCalls, c.describe())
 		}
 		if got := rec.Status(); got != effective(final.status) {
 			t.Fatalf("client got status %d, the final attempt (#%d) produced %d\ncase: %s", got, want, effective(final.status), c.describe())
